@@ -484,7 +484,11 @@ def c15_history(prop, key, index, tier):
             # stays around, never resumed
             gen = sched.topological_order()
             try:
-                next(gen, None)
+                with line_budget(200_000):
+                    next(gen, None)
+            except BudgetExceeded as exc:
+                out.violation('topological_order-no-termination', "after %s: first step of topological_order(): %s"
+                              % (steps, exc))
             except Exception:                           # noqa  cyclic at the moment
                 pass
             held.append(gen)
